@@ -8,6 +8,7 @@ import (
 	"context"
 	"encoding/json"
 	"fmt"
+	"github.com/lestrrat-go/jwx/v2/jwk"
 	"runtime"
 	"strings"
 	"sync"
@@ -320,6 +321,30 @@ func TestPropConcurrentUse(t *testing.T) {
 		mJSON, _ := json.Marshal(twin)
 		psJSON, _ := json.Marshal(ps)
 		penvBefore := fmt.Sprint(penv)
+		// a shared verification key set of its own: the right public key, and the public key of another
+		// pair as a set exported without ids publishes it (no `kid` member)
+		var vset jwk.Set
+		var vsetBefore, pubSetBefore []byte
+		if kp.PubSet != nil {
+			vset = jwk.NewSet()
+			for j := 0; j < kp.PubSet.Len(); j++ {
+				k, _ := kp.PubSet.Key(j)
+				c, _ := k.Clone()
+				vset.AddKey(c)
+			}
+			for _, o := range pool {
+				if o.PubSet != nil && o.Name != kp.Name {
+					k, _ := o.PubSet.Key(0)
+					c, _ := k.Clone()
+					c.Remove(jwk.KeyIDKey)
+					vset.AddKey(c)
+					break
+				}
+			}
+			vsetBefore, _ = json.Marshal(vset)
+			pubSetBefore, _ = json.Marshal(kp.PubSet)
+			rec.Class("shared-key-set-holding-a-key-without-kid")
+		}
 		start2 := make(chan struct{})
 		errs := make([]string, workers)
 		for i := 0; i < workers; i++ {
@@ -389,6 +414,14 @@ func TestPropConcurrentUse(t *testing.T) {
 						}
 					}
 					// the shared key set
+					if vset != nil && len(shared) > 0 {
+						cs := shared[0]
+						sf := &signature.CommandStepWithInvariants{CommandStep: *cs, RepositoryURL: "repo"}
+						if err := signature.Verify(ctx, cs.Signature, vset, sf, signature.WithEnv(penv)); err != nil {
+							errs[i] = "shared step does not verify against a key set that holds the right key next to a key without an id: " + err.Error()
+						}
+						vset.LookupKeyID("no-such-id")
+					}
 					if kp.PubSet != nil {
 						for j := 0; j < kp.PubSet.Len(); j++ {
 							k, _ := kp.PubSet.Key(j)
@@ -424,6 +457,14 @@ func TestPropConcurrentUse(t *testing.T) {
 		}
 		if fmt.Sprint(penv) != penvBefore {
 			t.Fatalf("Sign / Verify modified the shared env map")
+		}
+		if vset != nil {
+			if after, _ := json.Marshal(vset); !bytes.Equal(after, vsetBefore) {
+				t.Fatalf("verifying modified the shared key set:\nbefore %s\nafter  %s", vsetBefore, after)
+			}
+			if after, _ := json.Marshal(kp.PubSet); !bytes.Equal(after, pubSetBefore) {
+				t.Fatalf("verifying / validating modified the shared key set:\nbefore %s\nafter  %s", pubSetBefore, after)
+			}
 		}
 		// (c) parse-only rounds on documents that make Parse warn (unknown steps): the warning a parse
 		// returns must not depend on what was parsed before or concurrently (no process-wide state)
